@@ -126,3 +126,23 @@ Definition fees_total (ops : list mop) : Z :=
   fold_right (fun o acc => let '(_, amt, _, _) := o in (if 0 <? amt then amt else 0) + acc) 0 ops.
 
 Definition mop_ok (o : mop) : Prop := let '(_, _, bips, _) := o in 0 <= bips <= 10000.
+
+(** * Part 3: the exchange's share of a multi-denom fee (Keeper.CalculateExchangeSplit)
+
+    The split of a denom is its entry in the params' DenomSplits, else the default split.  The fee
+    is a list of (denom, amount); a coin with amount 0 or split 0 contributes nothing, every other
+    coin contributes the rounded-up share in its own denom. *)
+Definition split_for (dflt : Z) (tbl : list (N * Z)) (d : N) : Z :=
+  match find (fun e => N.eqb (fst e) d) tbl with
+  | Some (_, s) => s
+  | None => dflt
+  end.
+
+Fixpoint exchange_split_coins (dflt : Z) (tbl : list (N * Z)) (coins : list (N * Z)) : list (N * Z) :=
+  match coins with
+  | [] => []
+  | (d, a) :: t =>
+      let sp := split_for dflt tbl d in
+      if (a =? 0) || (sp =? 0) then exchange_split_coins dflt tbl t
+      else (d, exchange_split a sp) :: exchange_split_coins dflt tbl t
+  end.
